@@ -205,9 +205,43 @@ func runWorklist(c *core.Ctx) {
 	}
 	loops := findLoops(pk)
 	count := map[string]int{}
+	// (iv) a range loop must not append to the slice it ranges over: the range expression is evaluated
+	// once, so work appended in the body is never processed
+	nRange := 0
+	c.SetTags("complete")
+	for _, fd := range funcDecls(pk) {
+		ast.Inspect(fd.Body, func(n ast.Node) bool {
+			rs, ok := n.(*ast.RangeStmt)
+			if !ok {
+				return true
+			}
+			if tv, ok := pk.TypesInfo.Types[rs.X]; !ok || tv.Type == nil {
+				return true
+			} else if _, isSlice := tv.Type.Underlying().(*types.Slice); !isSlice {
+				return true
+			}
+			nRange++
+			x := exprString(rs.X)
+			ast.Inspect(rs.Body, func(m ast.Node) bool {
+				as, ok := m.(*ast.AssignStmt)
+				if !ok || len(as.Lhs) != 1 || len(as.Rhs) != 1 || exprString(as.Lhs[0]) != x {
+					return true
+				}
+				if call, ok := as.Rhs[0].(*ast.CallExpr); ok {
+					if id, ok := call.Fun.(*ast.Ident); ok && id.Name == "append" {
+						c.Fail(fmt.Sprintf("range-append:%s:%s", fd.Name.Name, x), as.Pos(), "%s appends to %s inside `for … range %s`: the range expression is evaluated once, so the appended work is never processed (nested indexes, queued manifests … are silently skipped)", fd.Name.Name, x, x)
+					}
+				}
+				return true
+			})
+			return true
+		})
+	}
+	c.Pass("range-append:none", token.NoPos, "%d range loops over slices in the store package; none appends to the slice it ranges over", nRange)
 	for _, li := range loops {
 		count[li.fd.Name.Name]++
 		key := fmt.Sprintf("loop:%s#%d", li.fd.Name.Name, count[li.fd.Name.Name])
+		c.SetTags("term")
 		if li.kind == "index" {
 			ok := progressOnAllPaths(li.loop.Body, func(st ast.Stmt) bool { return isIncr(st, li.idx) || isPop(st, li.w) })
 			c.Check(ok, key+":progress", li.loop.Pos(), "index loop over %s advances %s or shortens the slice on every path: %v", li.w, li.idx, ok)
@@ -347,19 +381,65 @@ func runWorklist(c *core.Ctx) {
 			}
 			return true
 		})
-		if deletes && patternB != "" {
-			okD := true
-			var offenders []string
-			ast.Inspect(li.fd.Body, func(n ast.Node) bool {
-				if st, ok := n.(ast.Stmt); ok {
-					if s, k, ok := mapAssignTrue(st); ok && s == patternB && k != popSkip[patternB] {
-						okD = false
-						offenders = append(offenders, k+" at "+c.P.Pos(st.Pos()))
+		if deletes {
+			// every map that can keep a manifest from being expanded — `if M[k] { continue }` anywhere in the
+			// body, or `if !M[k] { … append(W, …) }` — must be a pure visited set of manifests
+			skipKeys := map[string]map[string]bool{}
+			addSkip := func(m, k string) {
+				if skipKeys[m] == nil {
+					skipKeys[m] = map[string]bool{}
+				}
+				skipKeys[m][k] = true
+			}
+			ast.Inspect(li.loop.Body, func(n ast.Node) bool {
+				ifs, ok := n.(*ast.IfStmt)
+				if !ok {
+					return true
+				}
+				if ie, ok := ifs.Cond.(*ast.IndexExpr); ok && len(ifs.Body.List) >= 1 {
+					if br, ok := ifs.Body.List[len(ifs.Body.List)-1].(*ast.BranchStmt); ok && br.Tok == token.CONTINUE {
+						addSkip(exprString(ie.X), exprString(ie.Index))
+					}
+				}
+				if ue, ok := ifs.Cond.(*ast.UnaryExpr); ok && ue.Op == token.NOT {
+					if ie, ok := ue.X.(*ast.IndexExpr); ok {
+						appends := false
+						ast.Inspect(ifs.Body, func(m ast.Node) bool {
+							if as, ok := m.(*ast.AssignStmt); ok && len(as.Lhs) == 1 && exprString(as.Lhs[0]) == li.w {
+								appends = true
+							}
+							return true
+						})
+						if appends {
+							addSkip(exprString(ie.X), exprString(ie.Index))
+						}
 					}
 				}
 				return true
 			})
-			c.Check(okD, key+":skip-set", li.loop.Pos(), "the map %q that decides whether a manifest is expanded is written only with the key of the manifest being expanded: %v %v — otherwise a manifest whose digest also occurs as a config or layer of another image is never expanded and its own content is swept", patternB, okD, offenders)
+			c.SetTags("skip-set")
+			var maps []string
+			for m := range skipKeys {
+				maps = append(maps, m)
+			}
+			sort.Strings(maps)
+			for _, m := range maps {
+				okD := true
+				var offenders []string
+				ast.Inspect(li.fd.Body, func(n ast.Node) bool {
+					if st, ok := n.(ast.Stmt); ok {
+						if sm, k, ok := mapAssignTrue(st); ok && sm == m && !skipKeys[m][k] && !strings.HasPrefix(k, popped+".") {
+							okD = false
+							offenders = append(offenders, k+" at "+c.P.Pos(st.Pos()))
+						}
+					}
+					return true
+				})
+				c.Check(okD, key+":skip-set:"+m, li.loop.Pos(), "the map %q that can keep a manifest from being expanded is written only with keys of manifests being expanded or queued: %v %v — otherwise a manifest whose digest also occurs as a config or layer of another image is never expanded and its own content is swept", m, okD, offenders)
+			}
+			if len(maps) == 0 {
+				c.Fail(key+":skip-set", li.loop.Pos(), "the collector's mark loop has no visited set")
+			}
 		}
 	}
 	if len(loops) == 0 {
@@ -618,6 +698,7 @@ func runSweepGuard(c *core.Ctx) {
 			}
 		}
 	}
+	c.SetTags("safety")
 	c.Check(keepOK, "removal-needs-unmarked", del.Pos(), "the blob removal at %s is dominated by the ‘not in the keep-set’ edge of a lookup keyed by the loop's blob: %v — otherwise retained content is deleted", c.P.Pos(del.Pos()), keepOK)
 	_ = keepMap
 	// (2) grace test
@@ -655,6 +736,7 @@ func runSweepGuard(c *core.Ctx) {
 			}
 		}
 	})
+	c.SetTags("exact")
 	c.Check(pruneOK, "prune-dangling-entries", del.Pos(), "index entries whose blob is gone are removed from the index: %v", pruneOK)
 }
 
@@ -730,7 +812,7 @@ func runConvertMark(c *core.Ctx) {
 				}
 			case *ssa.Return:
 				if s.inConv && !s.set && bad == "" && len(x.Results) == 2 {
-					if an.IsNilConst(x.Results[1]) || isSpilledNil(x) {
+					if retErrNil(x) {
 						bad = fmt.Sprintf("the normal return at %s is reachable from the ‘not yet converted’ edge without setting the converted annotation: the conversion is repeated on every load and fallback tags processed twice", c.P.Pos(x.Pos()))
 					}
 				}
@@ -756,6 +838,7 @@ func runConvertMark(c *core.Ctx) {
 			}
 			return s, true
 		}})
+	c.SetTags("marker")
 	c.Check(bad == "", "annotation-set:"+kn(c.P.FuncName(ingest)), ingest.Pos(), "%s", map[bool]string{true: "every normal exit that passed the ‘not yet converted’ edge has set the converted annotation", false: bad}[bad == ""])
 	// modified = true on the edge leaving the conversion
 	modOK := false
@@ -788,6 +871,7 @@ func runConvertMark(c *core.Ctx) {
 	}
 	c.Check(modOK, "modified-set:"+kn(c.P.FuncName(ingest)), ingest.Pos(), "the ‘modified’ result is true on the edge that leaves the conversion: %v (otherwise the converted index is never saved)", modOK)
 	// loaders
+	c.SetTags("loader")
 	for _, fam := range r.Families {
 		ok := false
 		var where *ssa.Function
@@ -819,6 +903,15 @@ func runConvertMark(c *core.Ctx) {
 			c.Check(ok, key, where.Pos(), "%s calls the ingest on the ok-edge of decoding the index file: %v", c.P.FuncName(where), ok)
 		}
 	}
+}
+
+// retErrNil: the (last) error result of the return is nil — literally, or as a defer-spilled cell whose
+// last store in the returning block is nil.
+func retErrNil(ret *ssa.Return) bool {
+	if len(ret.Results) == 0 {
+		return false
+	}
+	return an.IsNilConst(ret.Results[len(ret.Results)-1]) || isSpilledNil(ret)
 }
 
 // isSpilledNil: the error result is a defer-spilled cell whose last store in the block is nil.
